@@ -291,6 +291,10 @@ func runC15(c *Ctx) {
 							genCall = call
 						case "crypto/sha256.Sum256":
 							hashCalls = append(hashCalls, sited{ufd, call})
+						default:
+							if fn.Pkg() == p.Types && len(call.Args) == 1 && wholeValueHasher(p, fn) {
+								hashCalls = append(hashCalls, sited{ufd, call})
+							}
 						}
 					}
 					if se, ok := call.Fun.(*ast.SelectorExpr); ok && isFileWriterField(info, se) {
@@ -345,7 +349,7 @@ func runC15(c *Ctx) {
 								}
 								return -1
 							}
-							if hf := calleeOf(info, hc); hf != nil && fullName(hf) == "crypto/sha256.Sum256" && len(hc.Args) == 1 {
+							if hf := calleeOf(info, hc); hf != nil && len(hc.Args) == 1 && (fullName(hf) == "crypto/sha256.Sum256" || wholeValueHasher(p, hf)) {
 								hashed = argIdx(hc.Args[0])
 							}
 							if isWriterValue(hc) && len(hc.Args) == 2 {
@@ -464,7 +468,7 @@ func runC15(c *Ctx) {
 		ast.Inspect(run.Body, func(n ast.Node) bool {
 			if gs, ok := n.(*ast.GoStmt); ok {
 				// (the worker may be written in place, held in a local — go processEvent(event) — or be a declared function)
-				if fl := goTarget(p, run.Body, gs.Call); fl != nil && strings.Contains(nodeText(c.fset, fl.Body), ".HandleEvent(") {
+				if fl := goTarget(p, run.Body, gs.Call); fl != nil && (strings.Contains(nodeText(c.fset, fl.Body), ".HandleEvent(") || handlesEventThroughHelper(p, fl.Body) != nil) {
 					// innermost
 					inner := true
 					ast.Inspect(fl.Body, func(m ast.Node) bool {
@@ -483,18 +487,44 @@ func runC15(c *Ctx) {
 			return true
 		})
 		var errChan types.Object
+		// the worker's body may hand the event to a function of the package that calls HandleEvent and reports the error
+		// on a channel it is given: the error channel is then the argument that stands for that parameter
+		forwardBody := (*ast.BlockStmt)(nil)
+		chanOf := func(id *ast.Ident) types.Object { return info.ObjectOf(id) }
 		if worker != nil {
-			for i, st := range worker.Body.List {
+			forwardBody = worker.Body
+			if hcall := handlesEventThroughHelper(p, worker.Body); hcall != nil && !strings.Contains(nodeText(c.fset, worker.Body), ".HandleEvent(") {
+				hfn := calleeOf(info, hcall)
+				for _, hfd := range allFuncDecls(p) {
+					if info.Defs[hfd.Name] == types.Object(hfn) && hfd.Body != nil {
+						forwardBody = hfd.Body
+						prms := paramObjs(info, hfd)
+						chanOf = func(id *ast.Ident) types.Object {
+							for k, po := range prms {
+								if po == info.ObjectOf(id) && k < len(hcall.Args) {
+									if aid, ok := ast.Unparen(hcall.Args[k]).(*ast.Ident); ok {
+										return info.ObjectOf(aid)
+									}
+								}
+							}
+							return info.ObjectOf(id)
+						}
+					}
+				}
+			}
+		}
+		if worker != nil {
+			for i, st := range forwardBody.List {
 				as, ok := st.(*ast.AssignStmt)
 				if !ok || len(as.Rhs) != 1 || !strings.Contains(types.ExprString(as.Rhs[0]), ".HandleEvent(") {
 					continue
 				}
-				if i+1 < len(worker.Body.List) {
-					if is, ok := worker.Body.List[i+1].(*ast.IfStmt); ok && errVarOfCond(is.Cond) != "" && len(is.Body.List) >= 1 {
+				if i+1 < len(forwardBody.List) {
+					if is, ok := forwardBody.List[i+1].(*ast.IfStmt); ok && errVarOfCond(is.Cond) != "" && len(is.Body.List) >= 1 {
 						if ss, ok := is.Body.List[0].(*ast.SendStmt); ok && types.ExprString(ss.Value) == errVarOfCond(is.Cond) {
 							forwards = true
 							if id, ok := ss.Chan.(*ast.Ident); ok {
-								errChan = info.ObjectOf(id)
+								errChan = chanOf(id)
 							}
 						}
 					}
@@ -974,6 +1004,12 @@ func pathDerivation(info *types.Info, fd *ast.FuncDecl, e ast.Expr, roots map[ty
 	case *ast.CallExpr:
 		if fn := calleeOf(info, x); fn != nil && fullName(fn) == modPath+"/runtime.GetDevModeTextFileName" && len(x.Args) == 1 {
 			return pathDerivation(info, fd, x.Args[0], roots, depth+1)
+		}
+		// a name function of the package (goFileNameOf(name) = TrimSuffix(name, ".templ") + "_templ.go"): unfolded
+		if pathDerivationPkg != nil {
+			if u := unfoldKeyFunc(info, pathDerivationPkg.Types, x, 0); u != ast.Expr(x) {
+				return pathDerivation(info, fd, u, roots, depth+1)
+			}
 		}
 	}
 	return false, "unrecognised path expression " + types.ExprString(e)
@@ -1640,4 +1676,43 @@ func handedOverWithItsLock(p *packages.Package, body *ast.BlockStmt, se *ast.Sel
 		return true
 	})
 	return ok
+}
+
+// handlesEventThroughHelper: the body calls a function of the package whose own body calls HandleEvent (the per-event
+// work moved into a method); returns that call.
+func handlesEventThroughHelper(p *packages.Package, body *ast.BlockStmt) *ast.CallExpr {
+	info := p.TypesInfo
+	var found *ast.CallExpr
+	ast.Inspect(body, func(n ast.Node) bool {
+		if _, isGo := n.(*ast.GoStmt); isGo {
+			return false
+		}
+		call, ok := n.(*ast.CallExpr)
+		if !ok || found != nil {
+			return found == nil
+		}
+		fn := calleeOf(info, call)
+		if fn == nil || fn.Pkg() != p.Types {
+			return true
+		}
+		for _, hfd := range allFuncDecls(p) {
+			if info.Defs[hfd.Name] != types.Object(fn) || hfd.Body == nil {
+				continue
+			}
+			calls := false
+			ast.Inspect(hfd.Body, func(m ast.Node) bool {
+				if hc, ok := m.(*ast.CallExpr); ok {
+					if se, ok := hc.Fun.(*ast.SelectorExpr); ok && se.Sel.Name == "HandleEvent" {
+						calls = true
+					}
+				}
+				return true
+			})
+			if calls {
+				found = call
+			}
+		}
+		return true
+	})
+	return found
 }
